@@ -382,7 +382,7 @@ func toValue(value interface{}) Value {
 func (v Value) String() string {
 	var result string
 	catchPanic(func() { //nolint:errcheck, gosec
-		result = v.string()
+		result = v.goString()
 	})
 	return result
 }
@@ -453,7 +453,7 @@ func (v Value) ToInteger() (int64, error) {
 func (v Value) ToString() (string, error) {
 	result := ""
 	err := catchPanic(func() {
-		result = v.string()
+		result = v.goString()
 	})
 	return result, err
 }
